@@ -6,7 +6,7 @@ TAG=$(basename $WT)_$(basename $PATCH .patch)_$PROP
 export VERIF_REPO=$WT VERIF_BUILD=/tmp/vb_$TAG VERIF_REPLAYS=/tmp/vb_$TAG/replays VERIF_EVIDENCE=/tmp/vb_$TAG/evidence VERIF_SECONDS=$SECS
 git -C $WT checkout -q -- pkg cmd
 git -C $WT apply $PATCH || exit 9
-/verif/check $PROP quick > /tmp/vb_$TAG.out 2>/tmp/vb_$TAG.err; rc=$?
+${VERIF_HOME:-/verif}/check $PROP quick > /tmp/vb_$TAG.out 2>/tmp/vb_$TAG.err; rc=$?
 git -C $WT checkout -q -- pkg cmd
 echo "$TAG exit=$rc $(grep -m1 -A1 '^VIOLATION' /tmp/vb_$TAG.out | tr '\n' ' ' | cut -c1-300)"
 rm -rf /tmp/vb_$TAG/vsim /tmp/vb_$TAG/overlay /tmp/vb_$TAG/xsync /tmp/vb_$TAG/out
